@@ -331,6 +331,14 @@ void BppODiscreteDistributionFormat::writeDiscreteDistribution(
       out << ",begin=" << dist.getLowerBound() << ",end=" << dist.getUpperBound();
       out.setPrecision(p);
     }
+    else if (dynamic_cast<const GammaDiscreteDistribution*>(&dist) && !dist.hasParameter("offset") && dist.getLowerBound() != 0)
+    {
+      // A constant offset is not a parameter: it is the lower bound of the distribution.
+      int p = out.getPrecision();
+      out.setPrecision(12);
+      out << ",offset=" << dist.getLowerBound();
+      out.setPrecision(p);
+    }
   }
 
   try
